@@ -1957,13 +1957,10 @@ where
             return Err(RadioError::InvalidBandwidthForFrequency);
         }
 
-        let mut low_data_rate_optimize = 0x00u8;
-        if (((spreading_factor == SpreadingFactor::_11) || (spreading_factor == SpreadingFactor::_12))
-            && (bandwidth == Bandwidth::_125KHz))
-            || ((spreading_factor == SpreadingFactor::_12) && (bandwidth == Bandwidth::_250KHz))
-        {
-            low_data_rate_optimize = 0x01u8;
-        }
+        // Low data rate optimization is required once the symbol time reaches
+        // 16.38 ms; use the rule the airtime calculation uses so both always agree
+        let low_data_rate_optimize =
+            lora_modulation::BaseBandModulationParams::new(spreading_factor, bandwidth, coding_rate).ldro as u8;
 
         Ok(ModulationParams {
             spreading_factor,
